@@ -491,7 +491,7 @@ func (a *EffectAnalysis) visitInstr(fn *ssa.Function, in ssa.Instruction) {
 func (a *EffectAnalysis) callResult(c *ssa.Call, i int) Label {
 	cc := &c.Call
 	if b, ok := cc.Value.(*ssa.Builtin); ok {
-		switch b.Name() {
+		switch nm(b) {
 		case "append":
 			var l Label
 			for _, arg := range cc.Args[:1] {
@@ -611,7 +611,7 @@ func (a *EffectAnalysis) visitCall(site ssa.CallInstruction, val *ssa.Call) {
 	cc := site.Common()
 	in := site.(ssa.Instruction)
 	if b, ok := cc.Value.(*ssa.Builtin); ok {
-		switch b.Name() {
+		switch nm(b) {
 		case "append":
 			if len(cc.Args) >= 1 {
 				note := ""
